@@ -372,6 +372,41 @@ def check_kernel(kernel, libpath, instances, seed, ntuples, journal):
                         break
             if bad and len(out["mismatches"]) < 5:
                 out["mismatches"].append({"specialization": spec["name"], "args": vals, "why": bad})
+        # the reducers' floating-point specialisations additionally see NaN and +-infinity among the items (the Python
+        # definition says what an unordered comparison does to the running result)
+        fspecs = [sp for sp in kernel["specializations"]
+                  if any(a["name"] == "fromptr" and a["dir"] == "in" and parse_type(a["type"])[0] in ("float", "double") for a in sp["args"])]
+        if kernel["name"].startswith("awkward_reduce_") and fspecs and vals.get("fromptr") and out["accepted"] % 2 == 0:
+            vals2 = dict(vals)
+            data = [float(x) for x in vals["fromptr"]]
+            for _ in range(rng.randint(1, 2)):
+                data[rng.randrange(len(data))] = rng.choice([float("nan"), float("nan"), float("inf"), float("-inf")])
+            vals2["fromptr"] = data
+            try:
+                err_py2, outs_py2 = run_python(fn, fspecs[0]["args"], vals2)
+            except Exception:
+                continue
+            for spec in fspecs:
+                r = run_compiled(lib, spec, vals2, outs_py2)
+                if r is None:
+                    continue
+                err_c, outs_c, types = r
+                out["comparisons"] += 1
+                bad = None
+                if err_c != err_py2:
+                    bad = "error status: compiled %s, definition %s" % (err_c, err_py2)
+                elif not err_py2:
+                    for name, ol in outs_py2.items():
+                        for i, x in ol.w.items():
+                            want = wrap_to(types[name], x)
+                            got = outs_c[name][i]
+                            if not same(got, want):
+                                bad = "%s[%d]: compiled %r, definition %r" % (name, i, got, want)
+                                break
+                        if bad:
+                            break
+                if bad and len(out["mismatches"]) < 5:
+                    out["mismatches"].append({"specialization": spec["name"], "args": {k: (repr(v) if k == "fromptr" else v) for k, v in vals2.items()}, "why": bad})
     out["attempts"] = attempts
     return out
 
